@@ -181,6 +181,45 @@ def do_fault(plan, text, cl=None):
     return out
 
 
+class FaultyWriter(object):
+    """a file object whose k-th write() raises (k = 0: the first) or, short = True, accepts only half of the text and
+    returns that count; what was written is kept in .parts"""
+
+    def __init__(self, at, exc, short=False):
+        self.at, self.exc, self.short, self.n, self.parts = at, exc, short, 0, []
+
+    def write(self, text):
+        n = self.n
+        self.n += 1
+        if n == self.at:
+            if self.short:
+                self.parts.append(text[:len(text) // 2])
+                return len(text) // 2
+            raise self.exc
+        self.parts.append(text)
+        return len(text)
+
+    def writelines(self, lines):
+        for l in lines:
+            self.write(l)
+
+    def flush(self):
+        pass
+
+
+def do_write_fault(cl, how):
+    """write_to_open_file() into a file object that fails (never judged): formatting reads the document, so whatever
+    the writer does the object is what it was (TraceChangelog: op FmtFail).  -> what came out"""
+    w = FaultyWriter(at=how % 2, exc=_exc(FAULT_EXCS[how % 4]), short=(how % 3 == 0))
+    try:
+        cl.write_to_open_file(w)
+        out = "returned"
+    except Exception as e:
+        out = type(e).__name__
+    STATS[("write", out)] = STATS.get(("write", out), 0) + 1
+    return out
+
+
 def describe(plan):
     return "%s%s at the %s line of a %s input, %s%s" % (
         {"exc": "its iterator raised ", "eofLine": "it ended early at a line end", "eofInLine": "it ended early inside a line",
